@@ -50,7 +50,7 @@ CALL_BUDGET = 20000
 # ---------------------------------------------------------------------------------------------
 # dynamic ground truth
 
-class BudgetExceeded(Exception):
+class BudgetExceeded(BaseException):
     pass
 
 
